@@ -230,6 +230,23 @@ def run(ctx):
             out = attempt(fn)
             judge(cname, case, out, out[1] if out[0] == "ok" else None, included, valid, why)
 
+        if valid and included:
+            # one streamed object evaluated in two steps (a summary first, the data afterwards): a stream is read once, so the second step may refuse;
+            # if it completes, every entry is there under its own contig
+            def two_steps():
+                gi_ = genome.get_intervals(mk())
+                bnp.compute(gi_.start)
+                c2, s2 = bnp.compute((gi_.chromosome, gi_.stop))
+                return list(zip(chrom_names(c2), np.asarray(s2).tolist()))
+            out = attempt(two_steps)
+            key2 = (tuple(case["genome"]), tuple(case["groups"]), tuple(case["cuts"]), "two-steps")
+            if out[0] == "ok":
+                want2 = [(r_[0], r_[2]) for r_ in included]
+                ctx.check("two-step-evaluation", sorted(out[1]) == sorted(want2), "get_intervals.compute-in-two-steps/entries-lost-or-misattributed", "the second evaluation of one streamed interval set completed with %r, the entries are %r" % (sorted(out[1])[:6], sorted(want2)[:6]),
+                          dict(case, got=sorted(out[1]), expected=sorted(want2)), key2 if len(case["groups"]) >= 2 else None)
+            else:
+                ctx.judged("two-step-evaluation", key2 if len(case["groups"]) >= 2 else None)
+                ctx.count("second_evaluation_refused")
         if genome0 is not None and "chrM" in groups:
             # the genome the tolerant one was derived from is still strict: chrM is unknown to it, so it must raise (or conserve every entry)
             out = attempt(lambda: rows_of(genome0.get_intervals(mk()).compute().get_data()))
